@@ -142,4 +142,38 @@ def rankRows : Nat → List (List Q) → Nat
 
 def Mat.rank (A : Mat) : Nat := rankRows (A.c + 1) A.e
 
+/-- exact inverse over ℚ by Gauss-Jordan elimination on the augmented rows `[A | I]`; `none` for a
+singular (or non-square) matrix.  Only used to measure a condition number when a residual
+certificate fails at its base tolerance. -/
+def gaussJordan : Nat → Nat → List (List Q) → Option (List (List Q))
+  | 0, _, rows => some rows
+  | fuel+1, c, rows =>
+    if c ≥ rows.length then some rows else
+    -- pivot: first row at or below `c` with a non-zero entry in column `c`
+    match (List.range rows.length).find? (fun i => i ≥ c && (rows.getD i []).getD c 0 != 0) with
+    | none => none
+    | some pi =>
+      let prow := rows.getD pi []
+      let p := prow.getD c 1
+      let prow' := prow.map (· / p)
+      let swapped := (rows.set pi (rows.getD c [])).set c prow'
+      let cleared := (List.range swapped.length).map fun i =>
+        let r := swapped.getD i []
+        if i = c then r else
+        let f := r.getD c 0
+        if f = 0 then r else List.zipWith (fun a b => a - f * b) r prow'
+      gaussJordan fuel (c + 1) cleared
+
+def Mat.inverse? (A : Mat) : Option Mat :=
+  if A.r ≠ A.c then none else
+  let n := A.r
+  let aug := (List.range n).map fun i => (List.range n).map (A.get i) ++ (List.range n).map (fun j => if i = j then (1 : Q) else 0)
+  (gaussJordan (n + 1) 0 aug).map fun rows => { r := n, c := n, e := rows.map (·.drop n) }
+
+/-- infinity norm (largest absolute row sum) -/
+def Mat.normInf (A : Mat) : Q := A.e.foldl (fun m row => maxQ m (row.foldl (fun s x => s + absQ x) 0)) 0
+
+/-- condition number `‖A‖∞ ‖A⁻¹‖∞` (exact), `none` for a singular matrix -/
+def Mat.cond? (A : Mat) : Option Q := A.inverse?.map fun B => A.normInf * B.normInf
+
 end GstVerif.LinAlg
